@@ -3251,7 +3251,14 @@ func (p *printer) printExpr(expr js_ast.Expr, level js_ast.L, flags printExprFla
 				p.print("*")
 			}
 			p.printSpace()
-			p.printExprWithoutLeadingNewline(e.ValueOrNil, js_ast.LYield, 0)
+
+			// An "in" operator in the operand must still be parenthesized inside
+			// the initializer of a "for" loop unless this expression is wrapped
+			var valueFlags printExprFlags
+			if !wrap {
+				valueFlags = flags & forbidIn
+			}
+			p.printExprWithoutLeadingNewline(e.ValueOrNil, js_ast.LYield, valueFlags)
 		}
 
 		if wrap {
